@@ -34,6 +34,31 @@ def run_case(case):
         return {"err": type(e).__name__ + ": " + str(e)[:200]}
 
 
+def run_case_phased(case, barrier):
+    """the same pipeline as run_case; the threads of a batch meet once between inference and rendering, so that the
+    rendering phases (the part that reads process-wide state) overlap — one of the schedules a user's threads can take"""
+    from . import stages
+    reg = None
+    err = None
+    try:
+        registry = stages.make_registry(tuple(case.get("kinds", ("IntString", "FloatString", "BooleanString"))),
+                                        datetime=case.get("datetime", False))
+        reg, _ = stages.build_registry([tuple(x) for x in case["inputs"]], registry, cmps_from(case["cmps"]),
+                                       case.get("dictFields", ()), case.get("dictRegex", ()))
+    except Exception as e:  # noqa
+        err = {"err": type(e).__name__ + ": " + str(e)[:200]}
+    try:
+        barrier.wait(timeout=120)
+    except Exception:  # noqa
+        pass
+    if err:
+        return err
+    try:
+        return {"text": stages.render_impl(reg, case["job"])}
+    except Exception as e:  # noqa
+        return {"err": type(e).__name__ + ": " + str(e)[:200]}
+
+
 def run_threads(batches):
     """each batch: a list of cases run concurrently, one thread per case, under a minimal switch interval;
     also each case alone in a fresh worker thread. Returns per batch: {"concurrent": [...], "worker": [...]}"""
@@ -53,6 +78,17 @@ def run_threads(batches):
             t.start()
         for t in ts:
             t.join()
+        res2 = [None] * len(cases)
+        barrier2 = threading.Barrier(len(cases))
+
+        def work2(i):
+            res2[i] = run_case_phased(cases[i], barrier2)
+
+        ts = [threading.Thread(target=work2, args=(i,)) for i in range(len(cases))]
+        for t in ts:
+            t.start()
+        for t in ts:
+            t.join()
         solo = []
         for c in cases[:2]:
             box = []
@@ -60,7 +96,7 @@ def run_threads(batches):
             t.start()
             t.join()
             solo.append(box[0] if box else {"err": "thread died"})
-        out.append({"concurrent": res, "worker": solo})
+        out.append({"concurrent": res, "phased": res2, "worker": solo})
     return out
 
 
